@@ -28,6 +28,23 @@ def by_value_types(t):
             yield from by_value_types(e)
 
 
+def holds_no_user_value(t):
+    """True when a value of type t owns nothing whose destructor matters to a user: by value it contains only foreign
+    containers of references / raw pointers / primitives (e.g. the cached `Vec<&dyn RawLock>`).  Forgetting such a value
+    can leak a buffer, never a user value."""
+    if t is None:
+        return False
+    for x in by_value_types(t):
+        k = x["k"]
+        if k in ("ref", "ptr", "prim", "tuple", "array", "slice", "fndef", "fnptr", "never"):
+            continue
+        if k == "adt" and not x.get("local") and x["path"] in ("std::vec::Vec", "std::boxed::Box", "std::mem::ManuallyDrop",
+                                                              "std::alloc::Global", "std::option::Option"):
+            continue
+        return False
+    return True
+
+
 def contains_by_value(t, paths):
     return any(x["k"] == "adt" and x["path"] in paths for x in by_value_types(t))
 
@@ -120,6 +137,10 @@ class Roles:
             roles.add("ACQ-GUARD")
         if owned and closures:
             roles.add("ACQ-SCOPED")
+        if owned and not closures and not roles and f.get("reachable") and not self.mentions_key(out):
+            # surrenders the key for the call, runs no user closure and returns neither a carrier nor the key: an
+            # acquiring operation that releases everything before it returns (`get_cloned(key)`, `replace(key, v)`)
+            roles.add("ACQ-KEYED")
         if roles and out["k"] == "adt" and out["path"].endswith("Result"):
             # can it hand the key back?
             errs = out["args"][1:] if out["path"] == "std::result::Result" else []
